@@ -211,4 +211,73 @@ mod kani_c11 {
     #[cfg(all(feature = "proto-ipv6", any(feature = "socket-udp", feature = "socket-dns")))]
     #[kani::proof] #[kani::stub(crate::wire::UdpRepr::parse, udp_parse_any)] #[kani::unwind(18)]
     fn c11_process_udp_no_listener_v6_xk() { c11_process_udp_no_listener_v6_impl(true) }
+
+    // ------------------------------------------------------------------ IP-layer filters (source sanity, destination ownership)
+    #[cfg(feature = "socket-udp")]
+    fn udp_socket_set<'a>(rm: &'a mut [crate::socket::udp::PacketMetadata; 1], rp: &'a mut [u8; 16], tm: &'a mut [crate::socket::udp::PacketMetadata; 1], tp: &'a mut [u8; 16], storage: &'a mut [SocketStorage<'a>; 1]) -> (SocketSet<'a>, crate::iface::SocketHandle) {
+        use crate::socket::udp;
+        let mut u = udp::Socket::new(udp::PacketBuffer::new(&mut rm[..], &mut rp[..]), udp::PacketBuffer::new(&mut tm[..], &mut tp[..]));
+        u.bind(kani::any::<u16>() | 1).unwrap();
+        let mut sockets = SocketSet::new(&mut storage[..]);
+        let h = sockets.add(u);
+        (sockets, h)
+    }
+
+    /// C11: an IPv4 packet from a broadcast/multicast source, or for an address that is not ours (no matching group, not broadcast),
+    /// is dropped before any socket or reply logic: nothing is delivered, nothing is answered
+    #[cfg(all(feature = "socket-udp", feature = "proto-ipv4"))]
+    #[kani::proof] #[kani::stub(crate::wire::UdpRepr::parse, udp_parse_any)] #[kani::stub(crate::wire::TcpRepr::parse, tcp_parse_any)] #[kani::unwind(10)]
+    fn c11_process_ipv4_filters() {
+        use crate::socket::udp;
+        let (mut cx, _own) = iface_v4();
+        let mut rm = [udp::PacketMetadata::EMPTY; 1]; let mut rp = [0u8; 16]; let mut tm = [udp::PacketMetadata::EMPTY; 1]; let mut tp = [0u8; 16];
+        let mut storage = [SocketStorage::EMPTY; 1];
+        let (mut sockets, h) = udp_socket_set(&mut rm, &mut rp, &mut tm, &mut tp, &mut storage);
+        let (src, dst) = (any_v4(), any_v4());
+        let bad_src = !unicast_v4(&cx, src) && !src.is_unspecified();
+        let foreign_dst = !cx.has_ip_addr(dst) && !cx.is_broadcast_v4(dst) && !dst.is_multicast();
+        kani::assume(bad_src || foreign_dst); // tag: pre
+        let proto = if kani::any() { IpProtocol::Udp } else if kani::any() { IpProtocol::Tcp } else { IpProtocol::Icmp };
+        let ip = Ipv4Repr { src_addr: src, dst_addr: dst, next_header: proto, payload_len: 12, hop_limit: 64 };
+        let mut bytes = [0u8; 32];
+        ip.emit(&mut Ipv4Packet::new_unchecked(&mut bytes[..]), &ChecksumCapabilities::ignored());
+        bytes[20 + 4] = 0; bytes[20 + 5] = 12;    // UDP length field / harmless for the others
+        cx.caps.checksum = ChecksumCapabilities::ignored();
+        let mut frag = FragmentsBuffer::kani_new();
+        let r = cx.process_ipv4(&mut sockets, PacketMeta::default(), HardwareAddress::Ip, &Ipv4Packet::new_unchecked(&bytes[..]), &mut frag);
+        kani::cover!(foreign_dst && !bad_src, "packet for a foreign unicast address reachable");
+        assert!(r.is_none(), "C11.ipv4: traffic not addressed to the interface, or from a non-unicast source, is never answered");
+        assert!(!sockets.get::<udp::Socket>(h).can_recv(), "C11.ipv4: ... and never delivered to a socket");
+    }
+
+    #[cfg(all(feature = "socket-udp", feature = "proto-ipv6"))]
+    #[kani::proof] #[kani::stub(crate::wire::UdpRepr::parse, udp_parse_any)] #[kani::stub(crate::wire::TcpRepr::parse, tcp_parse_any)] #[kani::unwind(20)]
+    fn c11_process_ipv6_filters() {
+        use crate::socket::udp;
+        let mut cx = InterfaceInner::kani_ctx(Instant::from_millis(0), 1500, kani::any(), false);
+        let own = Ipv6Address::new(0xfe80, 0, 0, 0, 0, 0, 0, 1);
+        cx.ip_addrs.push(IpCidr::Ipv6(Ipv6Cidr::new(own, 64))).unwrap();
+        cx.caps.checksum = ChecksumCapabilities::ignored();
+        let mut rm = [udp::PacketMetadata::EMPTY; 1]; let mut rp = [0u8; 16]; let mut tm = [udp::PacketMetadata::EMPTY; 1]; let mut tp = [0u8; 16];
+        let mut storage = [SocketStorage::EMPTY; 1];
+        let (mut sockets, h) = udp_socket_set(&mut rm, &mut rp, &mut tm, &mut tp, &mut storage);
+        let x: u16 = kani::any();
+        let other = Ipv6Address::new(0xfe80, 0, 0, 0, 0, 0, 0, 2);
+        // source multicast / unspecified to our address; or a unicast source to a foreign unicast address / an unjoined group
+        let (src, dst) = match kani::any::<u8>() % 4 {
+            0 => (Ipv6Address::UNSPECIFIED, own),
+            1 => (Ipv6Address::new(0xff00 | (x & 0xff), 0, 0, 0, 0, 0, 0, x >> 8), own),
+            2 => (other, Ipv6Address::new(0x2001, 0xdb8, 0, 0, 0, 0, x, 9)),
+            _ => (other, Ipv6Address::new(0xff05, 0, 0, 0, 0, 0, 0x1234, x | 0x100)),
+        };
+        let proto = if kani::any() { IpProtocol::Udp } else { IpProtocol::Tcp };
+        let ip = Ipv6Repr { src_addr: src, dst_addr: dst, next_header: proto, payload_len: 12, hop_limit: 64 };
+        let mut bytes = [0u8; 52];
+        ip.emit(&mut Ipv6Packet::new_unchecked(&mut bytes[..]));
+        bytes[40 + 4] = 0; bytes[40 + 5] = 12;
+        let r = cx.process_ipv6(&mut sockets, PacketMeta::default(), HardwareAddress::Ip, &Ipv6Packet::new_unchecked(&bytes[..]));
+        kani::cover!(dst != own, "foreign destination reachable");
+        assert!(r.is_none(), "C11.ipv6: traffic not addressed to the interface, or from a non-unicast source, is never answered");
+        assert!(!sockets.get::<udp::Socket>(h).can_recv(), "C11.ipv6: ... and never delivered to a socket");
+    }
 }
